@@ -207,6 +207,8 @@ impl Prop for Totality {
             4 => d * 3.0,
             _ => 0.0,
         };
+        // an unlimited budget with a threshold that the first iteration already meets
+        let (t, thresh) = if r.coin(0.03) { (u64::MAX, f64::INFINITY) } else { (t, thresh) };
         let (k, cores) = match r.below(20) {
             0 => (0, Cores::Unknown),
             1 => (0, Cores::Count(*r.pick(&[1usize, 2, 16, 64]))),
@@ -250,7 +252,9 @@ impl Prop for Totality {
         cfg.fail_build = case.fail_build;
         cfg.buggify = case.buggify;
         cfg.max_spawn = MAX_SPAWN;
-        cfg.step_budget = step_budget(st.nodes, case.t, eff.min(64));
+        // (an unlimited budget is only generated together with a threshold of +inf: one iteration)
+        cfg.step_budget = step_budget(st.nodes, if case.t == u64::MAX { 2 } else { case.t }, eff.min(64));
+        m.add("probe_unlimited_budget", (case.t == u64::MAX) as u64);
         let (c1, md) = (cfg.clone(), model.clone());
         let fault = case.fail_build;
         let sim = simulate(&case.sched, move || -> Result<(SolveOut, Option<SolveOut>), String> {
